@@ -107,7 +107,7 @@ def run_c(exe, lines, asan=False, timeout=None, abort_flag=None):
         if abort_flag and os.path.exists(abort_flag):
             incidents.append((None, "skipped", "run skipped after repeated hangs of the C code elsewhere"))
             break
-        tmo = timeout or (15 + 0.0008 * len(pending) * (3 if asan else 1))
+        tmo = timeout or (8 + 0.0008 * len(pending) * (3 if asan else 1))
         text = "\n".join(l for _, l in pending) + "\n"
         why = None
         try:
@@ -961,9 +961,15 @@ def shrink(exes, rec, budget_s=20.0):
         return case
     t0 = time.time()
 
+    last = {}
+
     def still(c):
         r = evaluate(exes, [json.loads(json.dumps(c))])
-        return any(json.dumps(f["key"], sort_keys=True) == key for f in r["fail"])
+        for f in r["fail"]:
+            if json.dumps(f["key"], sort_keys=True) == key:
+                last["what"], last["detail"] = f["what"], f.get("detail")
+                return True
+        return False
 
     def cols_of(c):
         return [c["rowind"][c["colptr"][j]:c["colptr"][j + 1]] for j in range(c["n"])]
@@ -1015,6 +1021,8 @@ def shrink(exes, rec, budget_s=20.0):
                     break
             if changed:
                 break
+    if "what" in last:
+        rec["what"], rec["detail"] = last["what"], last["detail"]
     return case
 
 
@@ -1158,11 +1166,12 @@ def run(ctx):
             tot = 1 << (m * n)
             step = 1024 if quick else 256
             for lo in range(0, tot, step):
-                jobs.append({"t": "exh", "m": m, "n": n, "lo": lo, "hi": min(tot, lo + step), "full": (not quick) and (m * n <= 12 or lo % 4096 == 0)})
+                jobs.append({"t": "exh", "m": m, "n": n, "lo": lo, "hi": min(tot, lo + step), "full": not quick})
     # random structured
     rng = ctx.rng
     rnd = []
-    npat = 420 if quick else 3000
+    npat = 420 if quick else 6000
+    cap = 3000 if quick else 5000
     for i in range(npat):
         kind = PAT_KINDS[i % len(PAT_KINDS)]
         r = rng.random()
@@ -1172,16 +1181,16 @@ def run(ctx):
             n = rng.randint(2, 12) if r < 0.2 else rng.randint(13, 80) if r < 0.7 else rng.randint(81, 300) if r < 0.97 else rng.randint(400, 900)
         if kind in ("denserow", "random", "zfd", "verytall", "tall", "wide") and n > 200:
             n = 200 + n // 8
-        rnd.append(gen_pat_case(rng, kind, n))
+        rnd.append(gen_pat_case(rng, kind, n, cap))
     for i in range(npat // 2):
         n = rng.randint(1, 40) if rng.random() < 0.7 else rng.randint(41, 250 if quick else 700)
         rnd.append(gen_forest(rng, FOREST_KINDS[i % len(FOREST_KINDS)], n))
     for i in range(npat // 3):
         n = rng.randint(1, 30) if rng.random() < 0.7 else rng.randint(31, 150 if quick else 400)
-        rnd.append(gen_raw_ct(rng, n, i % 3 == 0))
+        rnd.append(gen_raw_ct(rng, n, i % 3 == 0, cap))
     rnd += gen_checker_cases(rng, 300 if quick else 3000)
     rnd.sort(key=lambda c: -case_size(c))
-    nchunks = 48 if quick else 160
+    nchunks = 48 if quick else 320
     chunks = [[] for _ in range(nchunks)]
     for i, c in enumerate(rnd):
         chunks[i % nchunks].append(c)
